@@ -7,7 +7,8 @@ EXPLANATION = (
     "reachable from a walker-thread producer (every impl of PathWorker::produce_item / StdInWorker::parse_stdin and the walker "
     "closure of run_worker) writes or mutably borrows a `static mut`, calls the registry's unsynchronised write "
     "(Registration::write) or its callers, changes process-global state (env vars, cwd) or writes files; the only shared effects "
-    "are atomic counters, channel sends and stderr. R1b every writer of the `static mut` registries is reachable only from the "
+    "are atomic counters, channel sends and stderr — stdout belongs to the single printing thread (println!/stdout() from a producer would drop "
+    "text between the records of the structured output). R1b every writer of the `static mut` registries is reachable only from the "
     "start-up path, and in main the set-up call dominates the command dispatch that spawns workers. R2 in run_worker's walker "
     "closure a failed file (Err from produce_item, rejected entry) leads to WalkState::Continue; Quit is only on the failed-send "
     "arm. R3 each produced item is sent exactly once (single send site, fed by the iteration over produce_item's result). "
@@ -35,6 +36,7 @@ FORBIDDEN_CALLS = re.compile(
     r"|^std::fs::File::(create|create_new)$|^std::fs::OpenOptions::(write|append|create|truncate)$"
     r"|::Registration::<R>::write$"
     r"|^std::thread::local::LocalKey::<.*>::(with|try_with|with_borrow|with_borrow_mut|set|get|take|replace)$"
+    r"|^std::io::stdio::(_print|stdout)$|^std::io::stdio::Stdout::(lock|write|write_all|write_fmt)$"
 )
 
 
